@@ -28,6 +28,31 @@ pub fn execute_sequences(scratch: &mut DecoderScratch) -> Result<(), ExecuteSequ
         if actual_offset == 0 {
             return Err(ExecuteSequencesError::ZeroOffset);
         }
+        #[cfg(feature = "verif_hooks")]
+        {
+            use crate::verif::{hit, Feat};
+            hit(match (seq.of, seq.ll > 0) {
+                (1, true) => Feat::exec_rep1,
+                (2, true) => Feat::exec_rep2,
+                (3, true) => Feat::exec_rep3,
+                (1, false) => Feat::exec_rep1_ll0,
+                (2, false) => Feat::exec_rep2_ll0,
+                (3, false) => Feat::exec_rep3_ll0,
+                _ => Feat::exec_new_offset,
+            });
+            if seq.ml == 0 {
+                hit(Feat::exec_ml0);
+            }
+            crate::verif::seq_event(|| crate::verif::SeqEvent {
+                ll: seq.ll,
+                ml: seq.ml,
+                of_value: seq.of,
+                offset: actual_offset,
+                buffer_len: scratch.buffer.len(),
+                window_size: scratch.buffer.window_size,
+                dict_len: scratch.buffer.dict_content.len(),
+            });
+        }
         if seq.ml > 0 {
             scratch
                 .buffer
@@ -130,5 +155,13 @@ mod tests {
         // than panicking (debug) or wrapping to u32::MAX (release). See #115.
         let mut scratch = [0u32, 4, 8];
         assert_eq!(do_offset_history(3, 0, &mut scratch), 0);
+    }
+}
+
+/// Verification hooks: access to the private repeat offset state machine
+#[cfg(feature = "verif_hooks")]
+pub mod verif_hooks {
+    pub fn do_offset_history(offset_value: u32, lit_len: u32, scratch: &mut [u32; 3]) -> u32 {
+        super::do_offset_history(offset_value, lit_len, scratch)
     }
 }
